@@ -138,6 +138,9 @@ pub fn run_staking(swarm: &Swarm, given: Option<&[Op]>, mut rng: Option<&mut Rng
     if f.fired_tf > 0 {
         *e.stats.faults.entry("F8_tokenfactory_rejects").or_insert(0) += f.fired_tf;
     }
+    if f.fired_reply_data > 0 {
+        *e.stats.faults.entry("F20_transfer_response_without_data").or_insert(0) += f.fired_reply_data;
+    }
     if f.fired_gas > 0 {
         *e.stats.faults.entry("F9_abort_at_storage_access").or_insert(0) += f.fired_gas;
     }
@@ -206,8 +209,8 @@ pub fn profiles_for(prop: &str) -> &'static [Profile] {
         "C12" => &[Admin],
         "C14" => &[Admin],
         "C15" => &[General, Rates, Fees, Exit],
-        "C16" => &[Hostile, General, Ibc, Exit, Admin, Rates, Fees, Queries, Lifecycle, Halt, Upgrade],
-        "C17" => &[Queries, Queries, Ibc],
+        "C16" => &[Hostile, General, Ibc, Exit, Admin, Rates, Fees, Queries, Lifecycle, Halt, Upgrade, ManyBatches],
+        "C17" => &[Queries, Queries, Ibc, ManyBatches],
         "C18" => &[Upgrade],
         "C19" => &[General, Rates, Exit],
         _ => &[General],
